@@ -69,7 +69,8 @@ CHECKS = [
   "text": "Theorems: Epanechnikov / tricube / bisquare kernels are non-negative for t>=0 and vanish for t>=1; the weight is even in x-x0; the "
           "Gaussian kernel is positive (Reals exp/sqrt/PI); the <=1 and <1 support conventions give the same Epanechnikov weights; the local fit "
           "is the solution of kernel-weighted normal equations on the centred, bandwidth-scaled design, hence (instances of the C05 lemmas) "
-          "linear in the responses, reproduces every polynomial up to the fitted degree (estimate = intercept = value at the query point), "
+          "linear in the responses, reproduces every polynomial up to the fitted degree (estimate = intercept = value at the query point; "
+          "end to end for polynomials given in x: re-expansion around the query point, Lemmas/LocalPolyRepro.v), "
           "ignores zero-weight responses, is unique when the weighted design has full rank, and design and weights are invariant under a common "
           "shift/rescaling of sampling points, query point and bandwidth. Tie: LocalPolynomial.predict (constructor- and setter-configured) in "
           "1-D and 2-D for the four kernels, degrees 0..3, five domains: each estimate is verified exactly in Q as the intercept of a "
